@@ -48,20 +48,17 @@ package config_test
 //    said to be removed by nulls).
 //  * error texts and NoOptionError.Key are not compared.
 //
-// Known finding F-C29-1 (see report): Commit re-reads "config" *into* the old
-// pristine map, so a snap whose configuration was deleted (DeleteSnapConfig)
-// after the transaction was created is written back from the stale copy.
-// The check classifies exactly that divergence (committed state equals the
-// model computed with the stale base for the deleted snaps only), adopts it to
-// keep checking the rest of the history and reports it with its fingerprint.
-// Setting VERIF_C29_ASSUME_F1=1 tolerates it silently (used for mutant runs
-// while the finding is not yet listed in KNOWN_FINDINGS.jsonl).
+// Finding F-C29-1 (fixed in the repository by commit d59fe80): Commit re-read
+// "config" *into* the old pristine map, so a snap whose configuration was
+// deleted (DeleteSnapConfig) after the transaction was created was written
+// back from the stale copy.  If that exact divergence comes back (committed
+// state equals the model computed with the stale base for the deleted snaps
+// only) the violation carries the fingerprint F-C29-1; it is not tolerated.
 
 import (
 	"encoding/json"
 	"errors"
 	"fmt"
-	"os"
 	"sort"
 	"strings"
 	"testing"
@@ -287,8 +284,7 @@ type c29World struct {
 	epoch       int
 	commits     []c29CommitRec
 
-	labels   map[string]bool
-	knownHit string
+	labels map[string]bool
 }
 
 type c29CommitRec struct {
@@ -529,8 +525,6 @@ func (w *c29World) doSet(slot int, sn, key, valJSON string) error {
 	return nil
 }
 
-func c29AssumeF1() bool { return os.Getenv("VERIF_C29_ASSUME_F1") != "" }
-
 func (w *c29World) doCommit(slot int) error {
 	mtx, rtx := w.mtxs[slot], w.txs[slot]
 	if len(mtx.log) == 0 {
@@ -605,17 +599,11 @@ func (w *c29World) doCommit(slot int) error {
 
 	if err := w.cmpCommitted(next); err != nil {
 		if altDiffers && w.cmpCommitted(alt) == nil {
-			w.labels["f-c29-1"] = true
-			if w.knownHit == "" {
-				w.knownHit = fmt.Sprintf("commit of tx%d wrote back the configuration of a snap deleted after the transaction was created: %v", slot, err)
-			}
-			next = alt
-			for sn := range alt {
-				w.everTouched[sn] = true
-			}
-		} else {
-			return verifkit.Violatef("after commit of tx%d: %v", slot, err)
+			// exactly the F-C29-1 divergence (fixed in the repository by d59fe80):
+			// a violation like any other, only with a recognisable fingerprint
+			return verifkit.Knownf("F-C29-1", "commit of tx%d wrote back the configuration of a snap deleted after the transaction was created: %v", slot, err)
 		}
+		return verifkit.Violatef("after commit of tx%d: %v", slot, err)
 	}
 	w.committed = next
 	w.epoch++
@@ -819,9 +807,6 @@ func c29Run(c c29Case) (verifkit.Outcome, error) {
 				}
 			}
 		}
-	}
-	if w.knownHit != "" && !c29AssumeF1() {
-		return finish(verifkit.Knownf("F-C29-1", "%s", w.knownHit))
 	}
 	return finish(nil)
 }
